@@ -726,16 +726,32 @@ class Interp:
         if k == 'closure':
             return Closure(rv.a, [self.operand(fr, o) for o in rv.b])
         if k == 'aggregate':
-            return self.aggregate(fr, rv)
+            return self.aggregate(fr, rv, dest_place)
         raise EngineError('rvalue kind %r' % k)
 
-    def aggregate(self, fr, rv):
+    def aggregate(self, fr, rv, dest_place=None):
         path = mp.strip_generics(rv.a)
         segs = _split_path(path)
         vals = [self.operand(fr, o) for o in rv.b]
         if len(segs) >= 2 and segs[-2] in self.prog.enum_index:
             vi = self.prog.variant_index(segs[-2], segs[-1])
             return Enum(segs[-2], vi, segs[-1], vals)
+        if len(segs) == 1 and segs[0] not in self.prog.src.structs:
+            # bare variant name (`_0 = Equal;`): the destination's type names the enum
+            ty = None
+            if dest_place is not None:
+                if not dest_place.proj:
+                    ty = fr.fn.local_types.get(dest_place.local)
+                elif dest_place.proj[-1][0] == 'field':
+                    ty = dest_place.proj[-1][2]
+            en = _last_seg(ty) if ty else None
+            if en in self.prog.enum_index and any(n == segs[0] for n, _d in self.prog.enum_index[en]):
+                return Enum(en, self.prog.variant_index(en, segs[0]), segs[0], vals)
+            cands = [e for e, vs in self.prog.enum_index.items() if any(n == segs[0] for n, _d in vs)]
+            if len(cands) == 1:
+                return Enum(cands[0], self.prog.variant_index(cands[0], segs[0]), segs[0], vals)
+            if cands:
+                raise EngineError('ambiguous bare variant %r (dest type %r)' % (segs[0], ty))
         return Struct(segs[-1], vals)
 
     def cast(self, fr, rv):
